@@ -287,3 +287,51 @@ package gogen
 //@ ensures imp(old(p.old.label) == nil && old(p.old2.label) == nil && old(cb.current.label) == nil && old(p.body) != nil, LastStmt(cb).(*ast.IfStmt).Body == old(p.body) && LastStmt(cb).(*ast.IfStmt).Else != nil)
 //@ ensures imp(old(p.old.label) == nil && old(p.old2.label) == nil && old(cb.current.label) == nil && old(p.body) != nil && !(old(len(cb.current.stmts)) == 1 && typeis(old(cb.current.stmts[0]), *ast.IfStmt)), typeis(LastStmt(cb).(*ast.IfStmt).Else, *ast.BlockStmt) && LastStmt(cb).(*ast.IfStmt).Else.(*ast.BlockStmt).List == old(cb.current.stmts))
 //@ ensures imp(old(p.old.label) == nil && old(p.old2.label) == nil && old(cb.current.label) == nil && old(p.body) != nil && old(len(cb.current.stmts)) == 1 && typeis(old(cb.current.stmts[0]), *ast.IfStmt), LastStmt(cb).(*ast.IfStmt).Else == old(cb.current.stmts[0]))
+
+// ---------------------------------------------------------------------------
+// C14 — synthesised zero values
+
+//@ func ident
+//@ prop C14 C13
+//@ readonly
+//@ ensures fresh(result) && result.Name == name && result.Obj == nil
+
+//@ func boolean
+//@ prop C14
+//@ readonly
+//@ ensures result == ite(v, identTrue, identFalse)
+
+//@ func stringLit
+//@ prop C14
+//@ readonly
+//@ ensures fresh(result) && result.Kind == token.STRING && result.Value == strconv.Quote(val)
+
+//@ func (*CodeBuilder).getUnderlying
+//@ prop C14 C05
+//@ readonly
+//@ requires t != nil
+//@ ensures result == asI(t, types.Type).Underlying() && result != nil
+
+//@ func toType
+//@ prop C13
+//@ requires pkg != nil && typ != nil
+//@ assigns heapexcept(types.Type)
+//@ ensures result != nil
+
+//@ func zeroCompositeLit
+//@ prop C14
+//@ requires p != nil && typ != nil
+//@ assigns heapexcept(types.Type)
+//@ ensures fresh(result)
+
+//@ func (*Package).Zero
+//@ prop C14
+//@ requires typ != nil && GlobalsWf() && StdType(typ) && !typeis(typ, *types.TypeParam) && imp(typeis(typ, *types.Alias), StdType(types.Unalias(typ)) && !typeis(types.Unalias(typ), *types.TypeParam))
+//@ requires BKind(Resolve(typ)) != 0 && BKind(Resolve(typ)) != 19 && BKind(Resolve(typ)) != 24 && BKind(Resolve(typ)) != 25
+//@ loop 0 invariant typ != nil && Resolve(typ) == Resolve(entry(typ)) && StdType(typ) && !typeis(typ, *types.TypeParam) && imp(typeis(typ, *types.Alias), StdType(types.Unalias(typ)) && !typeis(types.Unalias(typ), *types.TypeParam))
+//@ ensures fresh(result) && result.Type == typ
+//@ ensures imp(BKind(Resolve(typ)) == 1, result.Val == asI(identFalse, ast.Expr) && result.CVal == constant.MakeBool(false))
+//@ ensures imp(BKind(Resolve(typ)) == 17, typeis(result.Val, *ast.BasicLit) && result.Val.(*ast.BasicLit).Kind == token.STRING && result.Val.(*ast.BasicLit).Value == strconv.Quote("") && result.CVal == constant.MakeString(""))
+//@ ensures imp((2 <= BKind(Resolve(typ)) && BKind(Resolve(typ)) <= 16) || (20 <= BKind(Resolve(typ)) && BKind(Resolve(typ)) <= 23), typeis(result.Val, *ast.BasicLit) && result.Val.(*ast.BasicLit).Kind == token.INT && result.Val.(*ast.BasicLit).Value == "0" && result.CVal == constant.MakeInt64(0))
+//@ ensures imp(BKind(Resolve(typ)) == 18 || IsNilable(Resolve(typ)), typeis(result.Val, *ast.Ident) && result.Val.(*ast.Ident).Name == "nil" && result.CVal == nil)
+//@ ensures imp(BKind(Resolve(typ)) < 0 && !IsNilable(Resolve(typ)), typeis(result.Val, *ast.CompositeLit) && result.CVal == nil)
